@@ -80,6 +80,25 @@ CHECKS.update({
    technique="exhaustive enumeration of control placements and limit values around the exact need; path oracle through hook H1"),
 })
 
+CHECKS.update({
+ "C06": dict(level="fault_enumeration", design="DESIGN.md 5 (C06)",
+   text="Base programs from the LOCK, WAIT, CHAN, ARC and A-sc families x every crash point: a panic inserted at every (thread, position) - while holding locks, right after spawn with unstarted threads owning loom objects, inside guarded sections - unconditionally and conditionally on each value of the preceding schedule-dependent result (first / middle / last iteration), plus programs loom itself must fail (deadlocks). The model call must unwind with the payload (never abort, never swallow), return normally when the reference cannot reach the crash point, and a sentinel model run afterwards in the same process must equal its fresh-process run.",
+   note="Trusted: the SC machine decides reachability of a crash point; a dead worker process is itself a violation (abort).",
+   technique="exhaustive enumeration of crash points (fault injection sites) x schedule-dependent firing conditions, all iterations of each"),
+ "C17": dict(level="model_checking", design="DESIGN.md 5 (C17)",
+   text="Every program of the STAT family (1-3 children + main over 2 thread-local keys and 2 lazy statics, plain and loom-op-in-initialiser/destructor flavours): every iteration's history is replayed on the reference; counters from the harness check one initialisation per (thread,key) / per execution, privacy, destructor once on the owning thread after its last op, AccessError for destroyed keys during destruction, one instance and one drop per lazy static per iteration, and no race on a cell written by the initialiser.",
+   note="The running thread inside initialisers/destructors is identified through hook H2. Which thread initialises a lazy static first is compared in the sound direction only.",
+   technique="exhaustive program enumeration; per-iteration conformance replay + instrumentation counters"),
+ "C18": dict(level="model_checking", design="DESIGN.md 5 (C18)",
+   text="Every program of the SPIN family (writers + one waiter with one yield loop on a write-once atomic, every ordering, accesses before/after the loop): if the awaited value is stored in every RC11 execution the run must finish Ok with RC11 <= outcomes <= RC11-minus; if the loop can stay unsatisfied in some execution the run must end with the branch-limit panic (never Ok, never hang).",
+   note="Trusted: RC11 enumerator with the loop as one read constrained to the awaited value (failed iterations can be deleted from a consistent execution).",
+   technique="exhaustive program enumeration + axiomatic execution enumeration vs. all loom iterations"),
+ "C20": dict(level="model_checking", design="DESIGN.md 5 (C20)",
+   text="Every poll script x slot/AtomicWaker x every waker-thread script up to the bound: an explicit-state search of the atomic-step specification decides whether the wake-up can be lost; block_on must return the output in every execution when it cannot, report a deadlock when it can, and re-poll only after wakes or the one spurious return.",
+   note="Trusted: the atomic-step specification of the waker slot / block_on notification flag.",
+   technique="exhaustive script enumeration + explicit-state reference search vs. verdict of the real exploration"),
+})
+
 NOT_YET = {}
 
 def main():
